@@ -4,6 +4,7 @@ import (
 	"fmt"
 	"go/token"
 	"go/types"
+	"sort"
 	"strings"
 
 	"golang.org/x/tools/go/ssa"
@@ -17,7 +18,7 @@ func init() {
 		Explanation: "C20.1 range arithmetic of the port-range generator under the precondition 1 ≤ MinPort ≤ MaxPort ≤ 65535 (linear forms evaluated at the polytope's vertices): the argument of every Intn is ≥ 1, the port that reaches the bind call lies in [MinPort, MaxPort], and no uint16 expression tree wraps at its root (MaxPort = 65535 and single-port ranges included); " +
 			"C20.2 the advertised address is the bound socket's own LocalAddr()/Addr() with only its IP overwritten by RelayAddress (range, static) or untouched (none), and a requested port is passed unchanged to the bind call; " +
 			"C20.3 clean failure: every return with a non-nil error returns no socket, and the retry loops are bounded by MaxRetries; " +
-			"C20.5 requested ports are not invented: a non-zero RequestedPort handed to a generator is a port a generator bound before (read from the address it returned), or that port + 1 (the RFC 5766 reservation pair); " +
+			"C20.5 requested ports are not invented: a non-zero RequestedPort handed to a generator is a port a generator bound before (read from the address it returned), or that port + 1 (the RFC 5766 reservation pair); C20.6 the socket / listener an allocation relays on is the result of a generator call made for that allocation, never one taken from a table or field where another request could find it too; " +
 			"C20.4 UDP relay sockets are bound by a plain ListenPacket: SO_REUSEPORT (reuseport.Control) is referenced only by the TCP listener/dialer paths, so a busy UDP port is refused by the kernel rather than shared.",
 		NotCovered: "that two live sockets cannot share a port is the kernel's bind() semantics; the quality of the random source; a MinPort > MaxPort configuration (outside the property's precondition).",
 		Run:        runC20,
@@ -778,6 +779,7 @@ func runC20(c *Ctx) {
 		c.Notes = append(c.Notes, "advisory: in the UDP AllocatePacketConn paths the socket is not closed when conn.LocalAddr() is not a *net.UDPAddr (unreachable with the standard net package)")
 	}
 	ruleRequestedPortsNotInvented(c, "C20.5")
+	ruleRelaySocketFresh(c, "C20.6")
 }
 
 func isClosureCall(w *World, call *ssa.Call) bool {
@@ -976,5 +978,147 @@ func ruleRequestedPortsNotInvented(c *Ctx, rule string) {
 	}
 	if n == 0 {
 		c.Bad(rule, "-", "RequestedPort", "-", "no RequestedPort is ever set: anchor gone")
+	}
+}
+
+// ruleRelaySocketFresh (C20.6): "per allocation, a freshly bound socket … two live allocations
+// never share a relay port". What is stored into Allocation.relayPacketConn / relayListener
+// comes — through helper results and phis — from a call of the configured generator made on
+// behalf of this allocation, not from somewhere a second request could pick it up as well (a
+// held reservation socket found under a read lock, a cache).
+func ruleRelaySocketFresh(c *Ctx, rule string) {
+	w := c.W
+	c.Rule(rule, "relay sockets are fresh: every value stored into Allocation.relayPacketConn / Allocation.relayListener originates (helper results, phis, locals) from a call of Manager.allocatePacketConn / allocateListener only", 2)
+	gens := map[*types.Var]bool{
+		w.Field("allocation", "Manager", "allocatePacketConn"): true,
+		w.Field("allocation", "Manager", "allocateListener"):   true,
+	}
+	var origins func(v ssa.Value, d int, seen map[ssa.Value]bool, out map[string]bool)
+	origins = func(v ssa.Value, d int, seen map[ssa.Value]bool, out map[string]bool) {
+		v = stripIface(v)
+		if seen[v] {
+			return
+		}
+		seen[v] = true
+		if d > 8 {
+			out["too deep"] = true
+			return
+		}
+		if isNilConst(v) {
+			return
+		}
+		switch x := v.(type) {
+		case *ssa.Phi:
+			for _, e := range x.Edges {
+				origins(e, d+1, seen, out)
+			}
+			return
+		case *ssa.Call, *ssa.Extract:
+			call, idx := callOf(v)
+			if call == nil {
+				break
+			}
+			if idx < 0 {
+				idx = 0
+			}
+			if h := call.Call.StaticCallee(); h != nil {
+				if w.IsMod[h] && len(h.Blocks) > 0 {
+					for _, r := range returnsOf(h) {
+						if idx < len(r.Results) {
+							origins(r.Results[idx], d+1, seen, out)
+						}
+					}
+					return
+				}
+				out["the result of "+h.String()] = true
+				return
+			}
+			if _, f, isL := fieldLoad(call.Call.Value); isL && gens[f] {
+				out["generator"] = true
+				return
+			}
+			out["a dynamic call"] = true
+			return
+		case *ssa.UnOp:
+			if x.Op == token.MUL {
+				if al, isAl := x.X.(*ssa.Alloc); isAl {
+					for _, st := range w.stores[w.locKey(al)] {
+						origins(st.Val, d+1, seen, out)
+					}
+					return
+				}
+				if _, f, isL := fieldLoad(x); isL {
+					// a field of a local struct value (the helper's result struct): what was put there
+					if fa, isFA := x.X.(*ssa.FieldAddr); isFA {
+						if al, path := allocBase(fa); al != nil && !w.escapesToWriters(al) {
+							if vals, ok := w.flow().localPathStores(al, path); ok && len(vals) > 0 {
+								for _, sv := range vals {
+									origins(sv, d+1, seen, out)
+								}
+								return
+							}
+						}
+					}
+					out["field "+fieldOwnerName(w, f)+"."+f.Name()] = true
+					return
+				}
+			}
+		case *ssa.Field:
+			if st, ok := x.X.Type().Underlying().(*types.Struct); ok {
+				if vals, ok2 := w.flow().structValueField(x.X, []string{st.Field(x.Field).Name()}, 0); ok2 && len(vals) > 0 {
+					for _, sv := range vals {
+						origins(sv, d+1, seen, out)
+					}
+					return
+				}
+			}
+		case *ssa.Parameter:
+			sites := w.callsTo(x.Parent())
+			if len(sites) > 0 {
+				for _, cs := range sites {
+					if i := paramIndex(x); i >= 0 && i < len(cs.Common().Args) {
+						origins(cs.Common().Args[i], d+1, seen, out)
+					}
+				}
+				return
+			}
+		}
+		out[w.desc(v)] = true
+	}
+	for _, fname2 := range []string{"relayPacketConn", "relayListener"} {
+		fld := w.Field("allocation", "Allocation", fname2)
+		n := 0
+		for _, fn := range w.ModFns {
+			w.eachInstr(fn, func(in ssa.Instruction) {
+				st, ok := in.(*ssa.Store)
+				if !ok {
+					return
+				}
+				fa, ok := st.Addr.(*ssa.FieldAddr)
+				if !ok || fieldOf(fa) != fld || isNilConst(stripIface(st.Val)) {
+					return
+				}
+				n++
+				c.Anchor(rule, fname2)
+				out := map[string]bool{}
+				origins(st.Val, 0, map[ssa.Value]bool{}, out)
+				var bad []string
+				for k := range out {
+					if k != "generator" {
+						bad = append(bad, k)
+					}
+				}
+				sort.Strings(bad)
+				if len(bad) == 0 && out["generator"] {
+					c.OK(rule, fname(fn), fname2, w.instrPos(in), "bound by the generator for this allocation")
+				} else {
+					c.Bad(rule, fname(fn), fname2, w.instrPos(in), fmt.Sprintf("the relay socket of a new allocation can be %v rather than one the generator just bound for it: a socket kept where another request finds it too can be handed to two allocations, which then share one relay port", bad))
+				}
+			})
+		}
+		if n == 0 {
+			c.Anchor(rule, fname2)
+			c.Bad(rule, "-", fname2, "-", "Allocation."+fname2+" is never assigned: anchor gone")
+		}
 	}
 }
